@@ -70,6 +70,7 @@ that does not exist is `NoSuchBucket`, not `NoSuchKey`; 0f31b61 delete_objects o
 47e9b00 complete_multipart_upload replaces the metadata and the checksum record of the object it replaces;
 aa68bb7 copy_object gives the destination the metadata and the checksum record of the source, or none;
 7d30be5 delete_objects reports every requested key as deleted and accepts a key named twice;
+1d762a7 list_parts returns the parts in ascending part-number order;
 b89afe2 ranged reads: covered for all ranges by `C18_get_refines_partial` and `C18_range_check`, the kernel cannot
 evaluate the decimal formatter of `Content-Range`) -/
 
@@ -299,6 +300,21 @@ theorem C18_fixed_delete_objects_every_key :
       .listObjectsV2 bka none none none none]).2.drop 4 =
       [.deleted [kB, kA, kB, kDE, kA], .err .NoSuchKey, .err .NoSuchKey, .get [3] 1 none (some (etagOf H0 [3])) [] {},
        .deleted [kA], .listed [(kX, 1)] 1 false []] := by decide
+
+/-- was fs:list-parts-unordered (the witness history of `corpus/fs.txt` first; on the model the deviation was never visible,
+    the real code returned directory order): parts are listed in ascending part-number order whatever the order in which they
+    were uploaded or replaced, on both sides -/
+theorem C18_fixed_list_parts_ordered :
+    Same [.createBucket bka, .createMultipartUpload alice bka kA none, .uploadPart alice bka kA (some 1) 1 [1],
+      .uploadPart alice bka kA (some 1) 2 [2], .uploadPart alice bka kA (some 1) 3 [3],
+      .uploadPart alice bka kA (some 1) 4 [4], .listParts alice bka kA (some 1)] ∧
+    Same [.createBucket bka, .createMultipartUpload alice bka kA none, .uploadPart alice bka kA (some 1) 4 [4],
+      .uploadPart alice bka kA (some 1) 2 [2, 2], .uploadPart alice bka kA (some 1) 10000 [],
+      .uploadPart alice bka kA (some 1) 1 [1], .uploadPart alice bka kA (some 1) 2 [2], .listParts alice bka kA (some 1)] ∧
+    (run H0 0 {} [.createBucket bka, .createMultipartUpload alice bka kA none, .uploadPart alice bka kA (some 1) 4 [4],
+      .uploadPart alice bka kA (some 1) 2 [2, 2], .uploadPart alice bka kA (some 1) 10000 [],
+      .uploadPart alice bka kA (some 1) 1 [1], .uploadPart alice bka kA (some 1) 2 [2],
+      .listParts alice bka kA (some 1)]).2.getLast? = some (.parts [(1, 1), (2, 1), (4, 1), (10000, 0)]) := by decide
 
 /-- was fs:suffix-range-longer-than-object / fs:suffix-range-huge-panics: the model no longer fails or panics (the answer
     itself is compared by `C18_get_refines_partial`) -/
